@@ -132,7 +132,56 @@ def twin_add_statements(repo):
     return out
 
 
-GENERIC_TWINS = [("unparse-roundtrip", twin_unparse), ("rename-locals", twin_rename_locals), ("add-statements", twin_add_statements)]
+class _InvertIfs(ast.NodeTransformer):
+    """`if c: A else: B`  ->  `if not c: B else: A` (only plain two-armed ifs, no elif chains)"""
+
+    def visit_If(self, node):
+        self.generic_visit(node)
+        if node.orelse and not (len(node.orelse) == 1 and isinstance(node.orelse[0], ast.If)) and \
+                not (len(node.body) == 1 and isinstance(node.body[0], ast.If)):
+            t = node.test
+            if isinstance(t, ast.UnaryOp) and isinstance(t.op, ast.Not):
+                nt = t.operand
+            else:
+                nt = ast.UnaryOp(op=ast.Not(), operand=t)
+            return ast.copy_location(ast.If(test=nt, body=node.orelse, orelse=node.body), node)
+        return node
+
+
+def twin_invert_ifs(repo):
+    out = {}
+    for m in repo.modules.values():
+        tree = _InvertIfs().visit(ast.parse(m.src))
+        out[m.relpath] = ast.unparse(ast.fix_missing_locations(tree)) + "\n"
+    return out
+
+
+_FLIP = {ast.Lt: ast.Gt, ast.Gt: ast.Lt, ast.LtE: ast.GtE, ast.GtE: ast.LtE, ast.Eq: ast.Eq, ast.NotEq: ast.NotEq}
+
+
+class _FlipCompares(ast.NodeTransformer):
+    """`a < b` -> `b > a` when both operands are names / attributes / constants (pure)"""
+
+    def visit_Compare(self, node):
+        self.generic_visit(node)
+        pure = (ast.Name, ast.Attribute, ast.Constant, ast.Tuple)
+        if len(node.ops) == 1 and type(node.ops[0]) in _FLIP and isinstance(node.left, pure) and isinstance(node.comparators[0], pure) \
+                and isinstance(node.left, ast.Constant) != isinstance(node.comparators[0], ast.Constant) and isinstance(node.comparators[0], (ast.Constant, ast.Tuple)):
+            return ast.copy_location(ast.Compare(left=node.comparators[0], ops=[_FLIP[type(node.ops[0])]()], comparators=[node.left]), node)
+        return node
+
+
+def twin_flip_compares(repo):
+    """Yoda conditions: `x == 0` -> `0 == x`, `v < (1, 1)` -> `(1, 1) > v`"""
+    out = {}
+    for m in repo.modules.values():
+        tree = _FlipCompares().visit(ast.parse(m.src))
+        out[m.relpath] = ast.unparse(ast.fix_missing_locations(tree)) + "\n"
+    return out
+
+
+GENERIC_TWINS = [("unparse-roundtrip", twin_unparse), ("rename-locals", twin_rename_locals), ("add-statements", twin_add_statements),
+                 ("invert-ifs", twin_invert_ifs), ("yoda-compares", twin_flip_compares)]
 
 
 # ------------------------------------------------------------------------------ runner
